@@ -188,6 +188,7 @@ inline Val doLoad1(State &S, const Val &p, Type *ty, const Instruction *I) {
   Region &R = S.regions[p.reg];
   if (R.kind == RK_ERRNO) return S.errnoSet ? S.errnoVal : Val::top(32);
   i128 olo, ohi; offsetBounds(S, p, olo, ohi);
+  if (R.traced) markRead(S, p.reg, olo, ohi + n);
   if (R.gv && R.gv->hasInitializer() && (R.gv->isConstant() || !R.d)) return loadGlobalConst(S, R, ty, olo, ohi, n, &p.kb, p.hascs ? &p.cs : nullptr);
   const RegionData &D = R.rd();
   auto cellAt = [&](i128 o) -> const ByteCell & { return D.get(o); };
@@ -265,6 +266,11 @@ inline void doCopy(State &S, const Val &dst, const Val &src, Val n, const Instru
   }
   Region &RS = S.regions[src.reg];
   i128 slo, shi; offsetBounds(S, src, slo, shi);
+  if (!CFG.traceRegions.empty()) {
+    // a copy out of a traced region is an echo, not a use: recorded as an event so that later reads of the destination can be mapped back
+    if (RS.traced) addEvent(S, "{\"k\":\"copy\",\"fn\":\"" + std::string(I->getFunction()->getName()) + "\",\"line\":" + std::to_string(lineOf(I)) + ",\"src\":\"" + RS.name + "\",\"soff\":" + rangeJ(slo, shi) +
+                             ",\"dst\":\"" + RD.name + "\",\"doff\":" + rangeJ(dlo, dhi) + ",\"len\":" + rangeJ(nlo, nhi) + ",\"root\":" + std::to_string(n.root) + ",\"rk\":" + i128s(n.rk) + "}");
+  }
   std::map<int64_t, std::pair<unsigned, Val>> movedScalars;
   if (dlo == dhi && slo == shi && nhi <= 65536) {
     // strong for the first nlo bytes, weak for the rest
